@@ -1623,10 +1623,16 @@ type modTarget struct {
 func (x *Exec) resolveModifies(env *SpecEnv, c *FuncContract) []modTarget {
 	var out []modTarget
 	for _, m := range c.Modifies {
+		if len(m.Props) > 0 && activeProp != "" && !hasProp(m.Props, activeProp) {
+			continue // modifies[Cxx]: this part of the frame is only granted under those properties
+		}
 		out = append(out, x.resolveModEntry(env, m.E)...)
 	}
 	return out
 }
+
+// activeProp: the property being checked (frames may be property-specific).
+var activeProp string
 
 func (x *Exec) resolveModEntry(env *SpecEnv, e Expr) []modTarget {
 	switch ee := e.(type) {
